@@ -24,8 +24,11 @@ About the parse model (all sub-expression behaviours `p`): `matchfirst_tokens_of
 Code fact worth a theorem: `replaced_tokens_first_only` (after a token-replacing parse action a list-valued name reports
   the FIRST token only — results.py:203 `ParseResults(toklist[0])`).
 
+Hidden tokens (`Tok.hid`: FollowedBy's `del ret[:]`, the parts of a Combine) keep their names: `hidden_keeps_names`,
+  `followedby_keeps_names`, `combine_keeps_names`, `combine_named_nests`, `hasKeys_is_haskeys`.
+
 PARTIAL w.r.t. the statement: `dump()` is not modelled in Lean (checked on the real code against the same view); names
-inside Combine / FollowedBy / Dict are not in the parse model (oracle on the real code only).  The tie between the
+of Dict entries are not in the parse model (oracle on the real code only).  The tie between the
 annotated tree and the real parser is the correspondence leg (harness/props/c05.py).
 -/
 namespace PP.Names
@@ -117,6 +120,7 @@ theorem toItem_refines : ∀ (f : Nat) (t : Tok), toItemF f t = specItemF f t :=
     | s v => rfl
     | n v => rfl
     | nm a b c d => rfl
+    | hid ts => rfl
     | g ts =>
       simp only [toItemF, specItemF, C05_keys_refine, C05_items_refine, C05_lookup_refines, specItems]
       have hk : (resultOf ts).dict.isEmpty = (specKeys ts).isEmpty := by
@@ -141,6 +145,7 @@ theorem viewItem_refines : ∀ (f : Nat) (t : Tok), viewItemF f t = specViewF f 
     | s v => rfl
     | n v => rfl
     | nm a b c d => rfl
+    | hid ts => rfl
     | g ts =>
       have hf : viewItemF f = specViewF f := funext ih
       simp only [viewItemF, specViewF, C05_keys_refine, C05_items_refine, C05_lookup_refines, specItems, hf]
@@ -301,6 +306,95 @@ example : keys (resultOf [.s ['k'], .g [.nm ['y'] true false [.s ['b']]]]) = [] 
     getItem (resultOf (bindPlain ['r'] true true [.g [.nm ['y'] true false [.s ['b']]]])) "r"
       = .ok (.one (.g [.nm ['y'] true false [.s ['b']]])) := by
   refine ⟨?_, ?_, ?_⟩ <;> rfl
+
+/-! ## hidden tokens keep their names: FollowedBy and Combine -/
+
+/-- a hidden part (`del ret[:]`) contributes nothing to the list view and, to every lookup, exactly what its tokens
+    would contribute if they were still there -/
+theorem hidden_keeps_names (ts rest : List Tok) (k : String) :
+    flatL (.hid ts :: rest) = flatL rest ∧
+    keys (resultOf (.hid ts :: rest)) = keys (resultOf (ts ++ rest)) ∧
+    getItem (resultOf (.hid ts :: rest)) k = getItem (resultOf (ts ++ rest)) k := by
+  have hb : bindsL (.hid ts :: rest) = bindsL (ts ++ rest) := by simp [bindsL, bindsT, bindsL_append]
+  have hk : specKeys (.hid ts :: rest) = specKeys (ts ++ rest) := by unfold specKeys boundNames; rw [hb]
+  refine ⟨by simp [flatL, Tok.flat], by rw [C05_keys_refine, C05_keys_refine, hk], ?_⟩
+  rw [C05_lookup_refines, C05_lookup_refines]
+  unfold specLookup occs listAll
+  rw [hk, hb]
+
+/-- **FollowedBy**: no tokens, but every name bound by the lookahead is reported as if the lookahead's tokens were there -/
+theorem followedby_keeps_names (ts : List Tok) (k : String) :
+    flatL [Tok.hid ts] = [] ∧ getItem (resultOf [.hid ts]) k = getItem (resultOf ts) k := by
+  have h := hidden_keeps_names ts [] k
+  simp only [List.append_nil] at h
+  exact ⟨by simp [flatL, Tok.flat], h.2.2⟩
+
+mutual
+theorem hasKeysT_spec : (t : Tok) → hasKeysT t = !(boundNames [t]).isEmpty
+  | .s v => by simp [hasKeysT, boundNames, bindsL, bindsT]
+  | .n v => by simp [hasKeysT, boundNames, bindsL, bindsT]
+  | .g ts => by simp [hasKeysT, boundNames, bindsL, bindsT]
+  | .hid ts => by
+    have := hasKeysL_spec ts
+    simp only [hasKeysT, this, boundNames, bindsL, bindsT, List.append_nil]
+  | .nm n m al ts => by
+    have := hasKeysL_spec ts
+    have hb : bindsL [.nm n m al ts] = bindsL ts ++ [⟨key n, m, al, ts⟩] := by simp [bindsL, bindsT]
+    have hkn : (key n != "") = !n.isEmpty := by
+      cases n with
+      | nil => rfl
+      | cons c cs =>
+        have : key (c :: cs) ≠ "" := by
+          intro h
+          have := congrArg String.toList h
+          simp [key] at this
+        simp [this]
+    simp only [hasKeysT, this, boundNames, hb, List.filterMap_append, List.filterMap_cons, List.filterMap_nil, hkn, Bind.value]
+    cases al <;> cases hs : (stripTopL ts) <;> cases n <;> simp
+theorem hasKeysL_spec : (ts : List Tok) → hasKeysL ts = !(boundNames ts).isEmpty
+  | [] => by simp [hasKeysL, boundNames, bindsL]
+  | t :: ts => by
+    have h1 := hasKeysT_spec t
+    have h2 := hasKeysL_spec ts
+    have : boundNames (t :: ts) = boundNames [t] ++ boundNames ts := by
+      rw [← boundNames_append]; rfl
+    rw [hasKeysL, h1, h2, this]
+    cases boundNames [t] <;> simp
+end
+
+/-- the parse model's `hasKeysL` (used by Combine.postParse: `retToks.haskeys()`) is `haskeys()` of the real object -/
+theorem hasKeys_is_haskeys (ts : List Tok) : hasKeysL ts = !(keys (resultOf ts)).isEmpty := by
+  rw [hasKeysL_spec, C05_keys_refine, specKeys]
+  cases h : boundNames ts with
+  | nil => simp [dedup]
+  | cons x xs => simp [dedup]
+
+/-- **Combine** keeps the names of its parts on the joined token: the list view is the one joined string; every name
+    bound inside is reported exactly as without the Combine (positions collapse, which no lookup reads).  When the
+    Combine itself is named and has keys the same result is returned as ONE nested item (`[retToks]`). -/
+theorem combine_keeps_names (nd : Node) (j : List Char) (ts : List Tok) (k : String)
+    (hflat : (nd.hasName && hasKeysL ts) = false) :
+    flatL (combineKeep nd j ts) = [.s (combineStr j (stripTopL ts))] ∧
+    keys (resultOf (combineKeep nd j ts)) = keys (resultOf ts) ∧
+    getItem (resultOf (combineKeep nd j ts)) k = getItem (resultOf ts) k := by
+  have hc : combineKeep nd j ts = [.hid ts, .s (combineStr j (stripTopL ts))] := by simp [combineKeep, hflat]
+  have hb : bindsL [.hid ts, .s (combineStr j (stripTopL ts))] = bindsL ts := by simp [bindsL, bindsT]
+  have hk : specKeys [.hid ts, .s (combineStr j (stripTopL ts))] = specKeys ts := by unfold specKeys boundNames; rw [hb]
+  rw [hc]
+  refine ⟨by simp [flatL, Tok.flat], by rw [C05_keys_refine, C05_keys_refine, hk], ?_⟩
+  rw [C05_lookup_refines, C05_lookup_refines]
+  unfold specLookup occs listAll
+  rw [hk, hb]
+
+theorem combine_named_nests (nd : Node) (j : List Char) (ts : List Tok)
+    (hn : (nd.hasName && hasKeysL ts) = true) :
+    combineKeep nd j ts = [.g [.hid ts, .s (combineStr j (stripTopL ts))]] := by simp [combineKeep, hn]
+
+example : getItem (resultOf ([.hid [.nm ['s'] false false [.s ['a']], .nm ['s'] false false [.s ['b']]], .s ['a', 'b']]
+      ++ [.hid [.nm ['s'] false false [.s ['c']]], .s ['c']])) "s" = .ok (.many [.s ['a'], .s ['b'], .s ['c']]) ∧
+    flatL ([.hid [.nm ['s'] false false [.s ['a']], .nm ['s'] false false [.s ['b']]], .s ['a', 'b']]
+      ++ [.hid [.nm ['s'] false false [.s ['c']]], .s ['c']]) = [.s ['a', 'b'], .s ['c']] := by
+  constructor <;> rfl
 
 /-! ## alternatives and optionals that took no part contribute nothing -/
 
